@@ -15,8 +15,8 @@ import (
 func TestC26(t *testing.T) {
 	r := ev.New("C26", "exploration",
 		"wire_round_trip: values (all ten kinds, depth<=3, NaN/±Inf/-0.0 by bits, times by instant incl. zoned ones), normal-form types (nested unions, lists without element type, empty objects/tuples), schemas (0-5 fields, TimeField -1..n-1, NoRetractions), records (retraction flag; zero, ordinary and extreme event times: year 0, 9999, 10000, ±2^55 s, WatermarkMaxValue), watermark messages, physical and execution variable contexts of 1-4 frames, each pushed through NativeXToProto -> proto.Marshal -> proto.Unmarshal -> ToNativeX; "+
-			"predicate_every_overload: for each of the 76 overloads of functions.FunctionMap() eight fixed calls built by the real typechecker, wrapped into a predicate; predicate_transport: random predicates (AND/OR/NOT over 1-4 targeted calls, arguments = variables of a generated two-frame schema / parser-producible constants / nested calls / COALESCE / ->field / ::cast / tuples); both sent through json.Marshal/Unmarshal three times (push-down request, its answer, materialize request) and RepopulatePhysicalExpressionFunctions, then compared node by node and evaluated before and after on 3-6 generated rows; "+
-			"unknown_function_flag: the same predicates with one call renamed or its declared signature altered (as a different build would send); plugin_vs_file: generated JSON tables and WHERE predicates of the typed SQL grammar run through the real binary once over the file and once over the test plugin serving that file (the plugin accepts and applies every pushed-down predicate); plugin_vs_file_nested: the same comparison for JSON tables with a list, an object and a string column (missing keys, nulls, empty lists) under seven fixed queries with len(), indexing, ->field and COALESCE in the pushed-down WHERE. "+
+			"predicate_every_overload: for each of the 76 overloads of functions.FunctionMap() eight fixed calls built by the real typechecker, wrapped into a predicate, and for each ordered pair of type-function overloads of one function (len: list/object/tuple, IN / NOT IN: list/tuple) eight fixed cases with both calls over NULL | collection variables and otherwise equal arguments, joined by AND/OR or as two predicates sent one after the other; predicate_transport: random predicates (AND/OR/NOT over 1-4 targeted calls, arguments = variables of a generated two-frame schema, collection variables nullable as often as not / parser-producible constants / nested calls / COALESCE / ->field / ::cast / tuples; about one case in eight holds such an overload pair, one in ten is a sequence of two predicates; rows rewritten so that x IN <collection variable> is often TRUE); both sent through json.Marshal/Unmarshal three times (push-down request, its answer, materialize request) and RepopulatePhysicalExpressionFunctions, then compared node by node and evaluated before and after on 3-6 generated rows; "+
+			"unknown_function_flag: the same predicates with one call renamed or its declared signature altered (as a different build would send); plugin_vs_file: generated JSON tables and WHERE predicates of the typed SQL grammar run through the real binary once over the file and once over the test plugin serving that file (the plugin accepts and applies every pushed-down predicate); plugin_vs_file_nested: the same comparison for JSON tables with a list, an object and a string column (missing keys, nulls, empty lists) under nine fixed queries with len(), indexing, ->field and COALESCE in the pushed-down WHERE (two of them with len of a nullable list column and len of a nullable object column in one WHERE clause). "+
 			"non-trivial: composite value/type, >=2 fields or frames, non-zero time / predicate uses a type-function overload or >=2 calls. distinct = canonical case JSON (plugin_vs_file: SQL + table)",
 		"times need only come back as the same instant (zone and monotonic reading are not read by anything behind the wire); nil and empty slices are the same",
 		"predicate constants are those the SQL parser can produce (Int, finite Float, String, Boolean, NULL, Duration); now() is only compared with instants far from the present (two evaluations differ)",
@@ -28,5 +28,5 @@ func TestC26(t *testing.T) {
 	ev.Check(t, r, "predicate_transport", ev.N(9600, 96000), genPred, predTransportProp(r))
 	ev.Check(t, r, "unknown_function_flag", ev.N(2400, 24000), genMutated, unknownFlagProp(r))
 	ev.Check(t, r, "plugin_vs_file", ev.N(176, 5000), genE2E, e2eProp(r))
-	ev.Check(t, r, "plugin_vs_file_nested", ev.N(32, 1000), genNested, nestedProp(r))
+	ev.Check(t, r, "plugin_vs_file_nested", ev.N(48, 1400), genNested, nestedProp(r))
 }
